@@ -973,3 +973,17 @@ def short_name(n):
             pass
     parts = n.split('::')
     return '::'.join(parts[-2:]) if len(parts) >= 2 else n
+
+
+def split_boolean_outcomes(outs):
+    """A path that RETURNS a comparison (`a <= b` as the tail of `x && y`) is the two paths that branch on it and return
+    the constants: same function, one shape for the rules."""
+    res = []
+    for o in outs:
+        r = o.ret
+        if isinstance(r, tuple) and r[0] in ('cmp',) or (isinstance(r, tuple) and r[0] == 'un' and r[1] == 'Not' and r[2][0] == 'cmp'):
+            for bv in (True, False):
+                res.append(Outcome(('bool', bv), list(o.pc) + [('cond', r, bv)], list(o.effects), o.st))
+        else:
+            res.append(o)
+    return res
